@@ -144,6 +144,14 @@ func (w *ipWorld) measureIP(c *client.IPClient, timeout time.Duration) (time.Tim
 	return client.MeasureClockOffsetIP(ctx, quietLog(), c, udpAddr(ipCliIP, 0), udpAddr(ipSrvIP, ipPort))
 }
 
+// measureIPTo is measureIP with a caller-owned remote address (the production reference clock
+// keeps one such object for its lifetime; the client rewrites it from the key exchange's data).
+func (w *ipWorld) measureIPTo(c *client.IPClient, remote *net.UDPAddr, timeout time.Duration) (time.Time, time.Duration, error) {
+	ctx, cancel := simsync.WithTimeout(context.Background(), timeout)
+	defer cancel()
+	return client.MeasureClockOffsetIP(ctx, quietLog(), c, udpAddr(ipCliIP, 0), remote)
+}
+
 // recFilter records the four timestamps the client combines and returns the raw offset.
 type recFilter struct {
 	calls  [][4]time.Time
